@@ -218,6 +218,9 @@ pub struct Sim {
     pub dead: bool,
     /// hook for credential monitors: every output packet (first transmissions only)
     pub outputs: Vec<(Id, Vec<u8>)>,
+    /// codes of the last three (operation, outcome) pairs: distinct 3-grams are counted as
+    /// observed interleaving shapes
+    pub recent: [u8; 3],
 }
 
 fn base_instant() -> Instant {
@@ -282,6 +285,7 @@ impl Sim {
             rtt_incomparable: false,
             dead: false,
             outputs: Vec::new(),
+            recent: [0; 3],
         })
     }
 
@@ -347,7 +351,32 @@ impl Sim {
             .collect()
     }
 
+    pub fn ngram(&self) -> u64 {
+        crate::rng::fnv64(&[0x3C, self.recent[0], self.recent[1], self.recent[2]])
+    }
+
     fn record(&mut self, step: &Step) {
+        let opc: u8 = match &step.op {
+            Op::SendRequest { .. } => 1,
+            Op::SendIndication { .. } => 2,
+            Op::Recv { .. } => 3,
+            Op::Timeout { .. } => 4,
+        };
+        let resc: u8 = match &step.result {
+            OpResult::Sent(_) => 0,
+            OpResult::SendErr(_) => 1,
+            OpResult::RecvOk => 2,
+            OpResult::RecvErr(_) => 3,
+            OpResult::TimeoutDone => {
+                // distinguish timer calls that retransmit / fail / do nothing
+                let o = step.events.iter().any(|e| matches!(e, Ev::Output { .. }));
+                let f = step.events.iter().any(|e| matches!(e, Ev::Failed { .. }));
+                4 + o as u8 + 2 * f as u8
+            }
+            OpResult::Panicked(_) => 9,
+        };
+        let fin = step.events.iter().any(|e| matches!(e, Ev::Retry { .. } | Ev::Failed { .. }) || matches!(e, Ev::Received { class, .. } if *class >= 2));
+        self.recent = [self.recent[1], self.recent[2], opc * 20 + resc * 2 + fin as u8];
         let evs: Vec<String> = step.events.iter().map(|e| e.brief()).collect();
         let op = match &step.op {
             Op::SendRequest { method, app, buf_len } => format!("send_request(method={:#x}, app=[{}], buf={})", method, app, buf_len),
